@@ -15,7 +15,7 @@ func init() { registry["C17"] = propC17 }
 func propC17() *Property {
 	return &Property{
 		ID:          "C17",
-		Explanation: "Static guard and shape rules on package object. Decided: (R1) every conversion from a floating-point to an integer type in the module is dominated by a lower and an upper range test on the converted value (Go leaves out-of-range results implementation-defined) and, in GetNumber, by the integrality test; (R2) package object cannot panic: every type assertion is comma-ok, there is no indexing, slicing, map write or explicit panic; (R3) the non-error result of GetString is the result of ansi.Scrub and known non-empty, the empty case returns the 'absent' sentinel, and GetTime/GetURL/GetMediaType/GetMarkup obtain their text only through GetString; (R4) getPrimitive returns 'absent' (wrapping ErrKeyNotPresent) exactly on the missing-key/null edges, 'wrong type' on the failed-assertion edge and the asserted value itself on success; no other error wraps the 'absent' sentinel; no accessor returns a non-nil error together with a non-zero value; (R5) GetList returns the list itself or a one-element literal holding the value. Not decided: time.Parse, url.Parse, the media-type regexp, encoding/json's number decoding, and the exact numeric value preserved by the conversion (value semantics).",
+		Explanation: "Static guard and shape rules on package object. Decided: (R1) every conversion from a floating-point to an integer type in the module is dominated by a lower and an upper range test on the converted value (Go leaves out-of-range results implementation-defined) and, in GetNumber, by the integrality test; (R2) package object cannot panic: every type assertion is comma-ok, there is no indexing, slicing, map write or explicit panic; (R3) the non-error result of GetString is the result of ansi.Scrub and known non-empty, the empty case returns the 'absent' sentinel, and GetTime/GetURL/GetMediaType/GetMarkup obtain their text only through GetString; (R4) getPrimitive returns 'absent' (wrapping ErrKeyNotPresent) exactly on the missing-key/null edges, 'wrong type' on the failed-assertion edge and the asserted value itself on success; no other error wraps the 'absent' sentinel; no accessor returns a non-nil error together with a non-zero value; (R5) GetList returns the list itself or a one-element literal holding the value. (R4, addition) the document map is read (index, range) only inside getPrimitive; (R6) the sanitiser behind GetString is total (same rule as C01.R4); (R7) pointer-valued accessors return a non-nil value whenever they return a nil error, through their helpers. Not decided: time.Parse, url.Parse, the media-type regexp, encoding/json's number decoding, and the exact numeric value preserved by the conversion (value semantics).",
 		Assumptions: []string{"encoding/json decodes numbers into float64, arrays into []any, objects into map[string]any"},
 		Rules: []Rule{
 			{ID: "C17.R1", Title: "float→integer conversions are range-guarded", Floor: 3, Run: c17R1},
